@@ -73,6 +73,7 @@ type Svc struct {
 
 	hidden *Sub // unexported: must not be reachable
 	notes  []string // what handlers observed (readable after the link is gone)
+	OnReturn atomic.Value // func(v int): called by ValCancel just before it returns
 	lastAll All
 	kept   map[int]func(ctx context.Context, i int, str string) (string, error)
 }
@@ -152,6 +153,18 @@ func (s *Svc) Fail(ctx context.Context, msg string) error {
 
 func (s *Svc) FailVal(ctx context.Context, v int, msg string, fail bool) (int, error) {
 	s.log(ctx, "FailVal", fmt.Sprintf("%d,%q,%v", v, msg, fail))
+	if fail {
+		return v, errors.New(msg)
+	}
+	return v, nil
+}
+
+// ValCancel returns (v, errors.New(msg)) or (v, nil); just before it returns it calls the OnReturn hook (the harness
+// abandons the CALLER's context there: the caller gives up exactly while the response travels back). Not logged.
+func (s *Svc) ValCancel(ctx context.Context, v int, msg string, fail bool) (int, error) {
+	if f, ok := s.OnReturn.Load().(func(int)); ok && f != nil {
+		f(v)
+	}
 	if fail {
 		return v, errors.New(msg)
 	}
@@ -406,6 +419,14 @@ func (s *Svc) Notes() []string {
 	return append([]string{}, s.notes...)
 }
 
+// Narrow invokes cb with numbers that do not fit the NARROWER parameter types the caller's function declares (the
+// two sides share names only): what arrives is decided by the closure's declared types, whatever the serializer.
+func (s *Svc) Narrow(ctx context.Context, cb func(ctx context.Context, level int, count uint) (string, error)) (string, error) {
+	s.log(ctx, "Narrow", "")
+	v, err := cb(ctx, 300, 70000)
+	return fmt.Sprintf("%s|%v", v, err), nil
+}
+
 // ClosureResult invokes cb and reports the value and error it handed back.
 func (s *Svc) ClosureResult(ctx context.Context, want int, cb func(ctx context.Context, k int) ([]int, error)) (string, error) {
 	s.log(ctx, "ClosureResult", fmt.Sprint(want))
@@ -541,6 +562,8 @@ type Remote struct {
 	RetMap      func(ctx context.Context, kind int) (map[string]int, error)
 	RetBytes    func(ctx context.Context, kind int) ([]byte, error)
 	RetNested   func(ctx context.Context, kind int) ([][]int, error)
+	Narrow         func(ctx context.Context, cb func(ctx context.Context, level int8, count uint16) (string, error)) (string, error)
+	ValCancel      func(ctx context.Context, v int, msg string, fail bool) (int, error)
 	ClosureOutcome func(ctx context.Context, tag int, cb func(ctx context.Context, i int, str string) (string, error)) (string, error)
 	ClosureFloats func(ctx context.Context, row int, cb func(ctx context.Context, a float32, b []float32, c int8, d []uint16, e []int32) (float32, error)) (string, error)
 	ClosureTypes  func(ctx context.Context, row int, cb func(ctx context.Context, a int, b float64, c bool, d string, e []int, f []string, g uint8, h []float64, i []bool, j int64) (string, error)) (string, error)
